@@ -125,6 +125,23 @@ void root() {
     if (!L.s && !L.m) violate("new_returned_null", "", "lock constructor returned NULL");
     describe("%s%s", i ? "," : "", L.is_spin ? "spin" : "mutex");
   }
+  // state ageing: counters inside a lock implementation wrap at powers of two; a lock that has been through N uncontended
+  // acquisitions must behave like a fresh one
+  if (gen(100) == 0) {
+    static const uint32_t ages[] = {254, 255, 256, 32767, 32768, 65534, 65535, 65536, 65537};
+    uint32_t age = ages[gen(9)];
+    describe("] aged=%u scripts=", age);
+    for (int i = 0; i < nl; i++) {
+      LockObj &L = st.locks[i];
+      for (uint32_t k = 0; k < age; k++) {
+        bool ok;
+        if (L.is_spin) { ok = (k & 7) == 7 ? p_spinlock_trylock(L.s) : p_spinlock_lock(L.s); if (ok) ok = p_spinlock_unlock(L.s); }
+        else { ok = (k & 7) == 7 ? p_mutex_trylock(L.m) : p_mutex_lock(L.m); if (ok) ok = p_mutex_unlock(L.m); }
+        if (!ok) violate("uncontended_lock_failed", L.is_spin ? "spinlock" : "mutex", "uncontended lock/trylock/unlock number %u on one object returned FALSE", k + 1);
+      }
+    }
+    probe("lock.aged");
+  } else
   describe("] scripts=");
   st.scripts.resize(nt);
   for (int t = 0; t < nt; t++) {
@@ -155,7 +172,7 @@ void root() {
 
 void configure(Config &c, Rng &) {
   swarm_schedule(c, 150);
-  c.step_cap = 100000;
+  c.step_cap = 1500000;
 }
 
 }  // namespace
